@@ -33,7 +33,7 @@ Proof.
   destruct (esc (only_exc b)); [reflexivity|discriminate].
 Qed.
 Print Assumptions C20_every_plugin_attempted.
-(* the nine loops were all found in the source *)
-Theorem C20_loops_found : length plugin_loop_bodies = 9%nat.
+(* the nine loops over plugins, callbacks, results and listeners, and the loop over shutdown's fixed steps, were all found *)
+Theorem C20_loops_found : length plugin_loop_bodies = 10%nat.
 Proof. vm_compute. reflexivity. Qed.
 Print Assumptions C20_loops_found.
